@@ -35,7 +35,7 @@ def make_case(rng, nreq=None, big=False):
     for r in range(nreq):
         kind = rng.choice(["now", "now", "later", "later", "later", "never"] if rng.random() < 0.3 else ["now", "later", "later"])
         style = rng.choice(["cl", "chunked"])
-        plans.append(dict(kind=kind, nd=rng.choice([0, 1, 1, 2]), style=style, pre=rng.choice([0, 1, 2]),
+        plans.append(dict(kind=kind, nd=rng.choice([0, 1, 1, 2]), renotify=rng.choice([0, 0, 1, 2]), style=style, pre=rng.choice([0, 1, 2]),
                           post=0 if kind == "now" else rng.choice([0, 1, 2])))
     return dict(stream=stream.hex(), ends=ends, closing=closing, plans=plans, descr=descr)
 
@@ -219,7 +219,7 @@ def run(ctx):
         if not r.ok:
             raise MachineryError("HttpServerAbs violates its own invariants: " + r.error)
         ctx.require_actions("HttpServerAbsMC", ["Deliver", "Recv", "Seg", "SegContinue", "WriteCall", "FinishCall", "LateFinish",
-                                                "Notify", "Lose", "Pause", "Resume", "Ret", "End"])
+                                                "Notify", "NotifyRequest", "Lose", "Pause", "Resume", "Ret", "End"])
         run_impl_mc(ctx)
 
     traces = []
